@@ -40,8 +40,14 @@ def scenario(tier):
         size = sym.int("size", 0, 3)
         now = b.current_now()
         t_file = now - age
-        b.set_zone(std, dst, dst_now, dst_file, t_file, rep)
+        t2 = t_file - 3600
+        if has_dst:
+            dst2 = (dst_file | rep) if not (isinstance(dst_file, bool) and isinstance(rep, bool)) else (dst_file or rep)
+        else:
+            dst2 = False
+        b.set_zone(std, dst, dst_now, dst_file, t_file, rep, extra=((t2, dst2),))
         b.mkfile("R/clip.mov", 5, size=size, mtime=t_file)
+        b.mkfile("R/clip2.mov", 6, size=4, mtime=t2)
         r = b.run("create", root="R", h=["md5", "c4"] if tier != "quick" else ["md5"], v=False)
         b.require(r.exit == 0 and r.exc is None, "create-exit-0", str(r))
         win = b.now_window()
@@ -75,6 +81,12 @@ def scenario(tier):
             if not b.real:
                 from ..clock import IsoStr
                 b.require(not isinstance(raw, IsoStr) or raw.fmt == "iso", "date-well-formed", what)
+        rec2 = m.record("clip2.mov")
+        b.require(rec2 is not None and rec2.lastmod is not None, "file-recorded", "clip2.mov")
+        d2 = b.date_attr(rec2.lastmod)
+        b.require(truth(d2[0] == t2), "date-denotes-instant", "lastmodificationdate of the second file (one hour earlier) is not its modification instant%s"
+                  % ("" if not b.real else " (%r, expected epoch %d)" % (rec2.lastmod, t2)))
+        b.require(truth(d2[2] == off_at(dst2)), "date-offset-in-force", "second file: offset differs from the zone's offset at that instant")
         # manifest name carries the UTC time of the run
         mm = NAME_RE.match(names[0])
         b.require(mm is not None, "manifest-name-shape", names[0])
